@@ -40,7 +40,7 @@ def run(prop, tier, seed, replay):
             jobs.append(("replay", ["--worlds", wp]))
     else:
         if uses["programs"]:
-            cfgs = ["fc_q", "fc_q3"] if tier == "quick" else ["fc_q", "fc_q3", "fc_t"]
+            cfgs = ["fc_q", "fc_q3", "fc_q4"] if tier == "quick" else ["fc_q", "fc_q3", "fc_q4", "fc_t"]
             cases = os.path.join(work, "programs.ndjson")
             open(cases, "w").close()
             for c in cfgs:
